@@ -13,11 +13,19 @@ use serde_json::{json, Value};
 pub struct C11;
 
 pub fn check(f: &Facts, stats: &mut Stats) -> CheckResult {
-    let (ont, via) = match super::common::build_auto(f) {
+    // one standard ontology in four is written as JAX files (in a spelling derived from the facts) and loaded
+    // from there: the text reader assembles the parent links as well
+    let text = f.has_term(1) && f.has_term(118) && f.canonical_hash() % 4 == 1;
+    let built = if text {
+        super::common::build_path(f, super::common::PathSel::Jax, &Default::default()).map(|o| (o, "jax"))
+    } else {
+        super::common::build_auto(f)
+    };
+    let (ont, via) = match built {
         Ok(o) => o,
         Err(e) => return fail("construct", e),
     };
-    check_on(&ont, f, &via, stats)?;
+    check_on(&ont, f, via, stats)?;
     // one small ontology in three also yields a sub-ontology (what it remembers of its source must not show in
     // distances and paths): the same questions are asked of it, against the facts restricted to the retained terms
     let m = Model::new(f);
@@ -309,7 +317,7 @@ impl Property for C11 {
         "C11"
     }
     fn rule(&self) -> String {
-        "Generated: acyclic graphs (Builder, or own v3 bytes with obsolete / replaced terms) weighted toward chains with shortcuts to a much higher ancestor, diamond ladders (ties), several roots and detached terms (<=16 terms quick / 22 thorough); ALL ordered pairs; one ontology in three additionally yields a sub-ontology (generated root and leaves), which is asked the same questions against the facts restricted to the retained terms. Fixed shapes in their own processes: chains of 262-270 links, 65 700 terms (sampled pairs), a term with 300 direct parents, and a ladder of 18 stacked diamonds (2^18 upward routes) with a two-link bypass over a term with a larger id. Oracle: upward BFS distances u(x,c) on the facts; distance_to_ancestor = u or None; path_to_ancestor is a chain of parent links of exactly that length ending in the ancestor; distance_to_term = min over common ancestors (terms included) of u(a,c)+u(b,c), symmetric, None iff no common ancestor; for a != b path_to_term exists iff the distance does, every step is a parent or child link, it ends in b and has exactly distance steps (validity predicate: ties admit several paths); Distance similarity = 1/(d+1) or 0. evaluations = ordered pairs. Non-trivial = graph with a pair where one term is an ancestor of the other but a strictly shorter route exists over a higher common ancestor, or a tie between two routes; distinct by canonical facts.".into()
+        "Generated: acyclic graphs (Builder, own v3 bytes with obsolete / replaced terms, or - one standard ontology in four - JAX files in a spelling derived from the facts) weighted toward chains with shortcuts to a much higher ancestor, diamond ladders (ties), several roots and detached terms (<=16 terms quick / 22 thorough); ALL ordered pairs; one ontology in three additionally yields a sub-ontology (generated root and leaves), which is asked the same questions against the facts restricted to the retained terms. Fixed shapes in their own processes: chains of 262-270 links, 65 700 terms (sampled pairs), a term with 300 direct parents, and a ladder of 18 stacked diamonds (2^18 upward routes) with a two-link bypass over a term with a larger id. Oracle: upward BFS distances u(x,c) on the facts; distance_to_ancestor = u or None; path_to_ancestor is a chain of parent links of exactly that length ending in the ancestor; distance_to_term = min over common ancestors (terms included) of u(a,c)+u(b,c), symmetric, None iff no common ancestor; for a != b path_to_term exists iff the distance does, every step is a parent or child link, it ends in b and has exactly distance steps (validity predicate: ties admit several paths); Distance similarity = 1/(d+1) or 0. evaluations = ordered pairs. Non-trivial = graph with a pair where one term is an ancestor of the other but a strictly shorter route exists over a higher common ancestor, or a tie between two routes; distinct by canonical facts.".into()
     }
     fn assumptions(&self) -> Vec<String> {
         vec!["is_a graph acyclic; path_to_term(a,a) (documented to return [a]) is outside the property and not checked".into()]
